@@ -433,7 +433,7 @@ def edge_guards_goals(body, accept_edge, reject_edge, goals):
 _VARIANT_ADTS = ("std::result::Result", "std::option::Option", "std::ops::ControlFlow")
 
 
-def variant_reach(body, starts=(0,), cut=frozenset(), limit=40000):
+def variant_reach(body, starts=(0,), cut=frozenset(), limit=40000, within=None):
     """Blocks reachable from `starts` without crossing `cut` edges, exploring (block, known variants) states: the variant
     of every Result / Option / ControlFlow local is tracked along each path (aggregate construction, moves, `?`'s
     Try::branch and from_residual) and a switch on the discriminant of a local whose variant is known takes that arm
@@ -457,6 +457,8 @@ def variant_reach(body, starts=(0,), cut=frozenset(), limit=40000):
         if (bi, envf) in seen:
             continue
         seen.add((bi, envf))
+        if within is not None and bi not in within:
+            continue
         out.add(bi)
         b = body.blocks[bi]
         if b.cleanup:
